@@ -131,8 +131,20 @@ def run(prop, tier, seed, known):
                     iv.append([s, s + rng.randint(1, 6) * 0.25 + rng.choice([0.0, 0.05])])
                     p.append(440.0 * 2 ** (rng.choice([0, 0, 25, 50, 75, 100, 1200, 51, -51, -50, -25, 49, -49]) / 1200.0))
                 return np.array(iv, dtype=float).reshape(-1, 2), np.array(p, dtype=float)
-            ri, rp = notes(rng.randint(0, 3))
-            ei, ep = notes(rng.randint(0, 3))
+            def dense(k, s0):
+                # near-duplicate notes: onsets within a tenth of a second, equal length, pitches within a quarter tone - many-to-many compatibility
+                iv = [[s0 + rng.choice([0.0, 0.05, 0.1, 0.15]), 0.0] for _ in range(k)]
+                for x in iv:
+                    x[1] = x[0] + 1.0
+                p = [440.0 * 2 ** (rng.choice([0, 0, 10, 25, -25, 40]) / 1200.0) for _ in range(k)]
+                return np.array(iv, dtype=float).reshape(-1, 2), np.array(p, dtype=float)
+            if rng.random() < 0.35:
+                s0 = rng.randint(0, 4) * 0.25
+                ri, rp = dense(rng.randint(1, 3), s0)
+                ei, ep = dense(rng.randint(1, 3), s0)
+            else:
+                ri, rp = notes(rng.randint(0, 3))
+                ei, ep = notes(rng.randint(0, 3))
             strict = rng.random() < 0.5
             ratio = rng.choice([None, 0.25, 0.5])
             ot, pt, omin = rng.choice([0.25, 0.05, 0.1]), rng.choice([50.0, 25.0]), rng.choice([0.25, 0.05])
